@@ -28,7 +28,8 @@ LEVEL = "exploration"
 RULE = (
     "cases = unary-free generated tree sequences (contemporaneous, one root per tree), the same with "
     "one node spliced into one edge over a drawn sub-interval (whole edge / first tree / last tree / "
-    "interior fragment; optionally flagged as a sample; optionally next to a deleted region), "
+    "interior fragment; optionally flagged as a sample; optionally next to a deleted region), one leaf "
+    "edge removed up to the right end (unary by edge removal only), "
     "msprime full ARGs and coalescing_segments_only=False simulations simplified with "
     "keep_unary=True, and internal sample nodes; x method; non-trivial = exactly one unary "
     "occurrence (one node, one interval) in the whole tree sequence; distinct by SHA-1 of (tables, method)"
@@ -48,14 +49,14 @@ METHODS = ["variational_gamma", "inside_outside", "maximization", "detectors"]
 
 def budget(tier):
     if tier == "quick":
-        return dict(examples=250, shards=4)
+        return dict(examples=200, shards=4, time_s=2400)  # time_s: only a guard for overloaded machines
     return dict(examples=2000, shards=16)
 
 
 @st.composite
 def strategy_(draw, tier):
     kind = draw(st.sampled_from(["clean", "splice", "splice", "splice", "fullarg", "internal_sample",
-                                 "splice_gap"]))
+                                 "splice_gap", "drop_leaf"]))
     tags = ["kind=" + kind]
     if kind == "fullarg":
         ts = draw(H.fullarg_ts(max_n=8 if tier == "quick" else 14))
@@ -107,6 +108,34 @@ def strategy_(draw, tier):
                 if r is not None:
                     ts = r[0]
                     tags.append("second_splice")
+        elif kind == "drop_leaf":
+            # a sample becomes isolated over [lo, hi): its parent loses a child by edge REMOVAL only
+            # (no edge is inserted at lo); with hi = L nothing is inserted afterwards either
+            if draw(st.booleans()):
+                # cut one sample's edge strictly inside the last tree: the only event at that
+                # position is an edge removal, and no edge is inserted anywhere to its right
+                ends = np.flatnonzero((ts.edges_right == ts.sequence_length) & node_is_sample(ts)[ts.edges_child])
+                if len(ends):
+                    e = ts.edge(int(ends[draw(st.integers(0, len(ends) - 1))]))
+                    last_left = float(ts.breakpoints(as_array=True)[-2])
+                    x = last_left + (ts.sequence_length - last_left) * draw(st.sampled_from([0.25, 0.5, 0.75]))
+                    tables = ts.dump_tables()
+                    right = tables.edges.right
+                    right[e.id] = x
+                    tables.edges.right = right
+                    keep = ~((ts.mutations_node == e.child) & (ts.sites_position[ts.mutations_site] >= x))
+                    tables.mutations.keep_rows(keep)
+                    ts2 = H.refinalize(tables)
+                    if ts2.num_mutations >= 1:
+                        ts = ts2
+                        tags.append("drop_inside_last_tree")
+            else:
+                hi = draw(st.sampled_from([1.0, 1.0, 0.75]))
+                lo = draw(st.sampled_from([0.0, 0.25, 0.5, 0.9]))
+                ts2 = G.remove_leaf_edge(ts, draw(st.integers(0, 100)), lo, hi)
+                if ts2.num_mutations >= 1:
+                    ts = ts2
+                    tags.append("drop_to_end" if hi == 1.0 else "drop_inner")
         elif kind == "internal_sample":
             nons = np.flatnonzero(~node_is_sample(ts))
             if len(nons):
